@@ -82,12 +82,16 @@ def corrupt(rng, data):
         if data[:1] == b">":
             del data[0]
     elif kind == "emptyhdr":
-        i = data.find(b">")
+        # blank the text of one header (first, or any later one), optionally leaving white space only
+        starts = [m for m in range(len(data)) if data[m:m + 1] == b">" and (m == 0 or data[m - 1:m] == b"\n")]
+        i = rng.choice(starts) if starts else -1
         if i >= 0:
             j = data.find(b"\n", i)
             if j < 0:
                 j = len(data)
             del data[i + 1:j]
+            if rng.random() < 0.3:
+                data[i + 1:i + 1] = rng.choice([b" ", b"\t", b"  "])
     elif kind == "empty":
         data = bytearray()
     elif kind == "randbytes":
